@@ -7,6 +7,7 @@ import (
 	"crypto/elliptic"
 	"crypto/rand"
 	"crypto/rsa"
+	"encoding/base64"
 	"encoding/json"
 	"fmt"
 	mrand "math/rand/v2"
@@ -368,6 +369,12 @@ func checkC18(c *run.Ctx) {
 		path := filepath.Join(scratch, fmt.Sprintf("set-%d.json", f))
 		must(c, os.WriteFile(path, b, 0o600))
 		requests := []string{"", "alpha", "beta", "gamma", "absent", "Alpha", "BETA", "Gamma", "alph"}
+		for _, m := range members {
+			// a key is found by the id it carries, not by anything derived from its material (thumbprint of a member)
+			if tp, err := m.key.Thumbprint(crypto.SHA256); err == nil {
+				requests = append(requests, base64.RawURLEncoding.EncodeToString(tp), base64.StdEncoding.EncodeToString(tp), fmt.Sprintf("%x", tp))
+			}
+		}
 		for _, req := range requests {
 			id := fmt.Sprintf("load/%d/%s", f, req)
 			var got jwk.Key
